@@ -3,6 +3,7 @@ package commitlog
 
 import (
 	"io"
+	"math"
 	"os"
 	"path/filepath"
 	"strconv"
@@ -378,6 +379,12 @@ func (l *commitLog) EarliestOffsetAfterTimestamp(timestamp int64) (int64, error)
 	if err != nil {
 		return 0, errors.Wrap(err, "failed to find log segment for timestamp")
 	}
+	// Messages can share a timestamp. If the previous segment begins with the
+	// given timestamp, the earliest message with it might be at the end of
+	// the segment preceding it, so step back.
+	for idx > 1 && segments[idx-1].FirstWriteTime() >= timestamp {
+		idx--
+	}
 	// Search the previous segment for the first entry whose timestamp is
 	// greater than or equal to the given timestamp. If this is the first
 	// segment, just search it.
@@ -443,15 +450,16 @@ func (l *commitLog) LatestOffsetBeforeTimestamp(timestamp int64) (int64, error) 
 		seg = segments[idx-1]
 	}
 
-	// Find entry equal to or greater than the given timestamp.
-	entry, err := seg.findEntryByTimestamp(timestamp)
-	if err == nil {
-		// If it's an exact match, return the offset.
-		if entry.Timestamp == timestamp {
-			return entry.Offset, nil
-		}
+	// No entry can be past the maximum timestamp.
+	if timestamp == math.MaxInt64 {
+		return seg.LastOffset(), nil
+	}
 
-		// Otherwise we want the previous offset.
+	// Find the first entry past the given timestamp. Messages can share a
+	// timestamp, so the first entry matching it might not be the latest.
+	entry, err := seg.findEntryByTimestamp(timestamp + 1)
+	if err == nil {
+		// We want the previous offset.
 		return entry.Offset - 1, nil
 	}
 
